@@ -1,5 +1,6 @@
 """C01: slicing kernels select what Python/NumPy indexing selects (oracle = CPython slice/index semantics on
 nested lists, stated independently of the YAML definitions)."""
+import itertools
 import z3
 from . import kspec, runner
 from .oracle import Harness, discharge, guard, summarize
@@ -501,6 +502,38 @@ def h_regularize_arrayslice(M):
     return discharge(h, '%s M=%d' % (cname, M), oracle, [('ok', z3.Not(h.errs[-1][2])), ('error', h.errs[-1][2])] if M else [], extra=dict(bounds=dict(M=M)))
 
 
+@guard
+def h_slicearray_ravel(shape, transposed=False):
+    """awkward_slicearray_ravel: the index array of a slice (any number of dimensions, any strides) laid out flat in row-major order:
+    flat[(i0, i1, ...)] = from[i0 * s0 + i1 * s1 + ...], every flat position written exactly once"""
+    cname = 'awkward_slicearray_ravel_64'
+    shape = tuple(shape)
+    nd = len(shape)
+    total = 1
+    for x in shape:
+        total *= x
+    strides, acc = [0] * nd, 1
+    order = range(nd) if transposed else reversed(range(nd))
+    for k in order:
+        strides[k] = acc
+        acc *= shape[k]
+    h = Harness(cname, unwind=max(shape + (1,)) * nd + total + 6)
+    h.scalar('ndim', 'int64_t', nd)
+    h.arr('toptr', 'int64_t', total)
+    h.arr('fromptr', 'int64_t', max(total, 1), const=True)
+    h.array('shape', 'int64_t', nd, const=True, values=list(shape))
+    h.array('strides', 'int64_t', nd, const=True, values=strides)
+    h.kcall(cname, [('buf', 'toptr'), ('buf', 'fromptr'), 'ndim', ('buf', 'shape'), ('buf', 'strides')])
+
+    def oracle(io):
+        out = [('no error', io.err())]
+        for flat, pos in enumerate(itertools.product(*[range(x) for x in shape])):
+            src = sum(p_ * s_ for p_, s_ in zip(pos, strides))
+            out.append(('flat position %d holds entry %s of the index array' % (flat, pos), io.y('toptr', flat) != io.x('fromptr', src)))
+        return out
+    return discharge(h, '%s shape=%s%s' % (cname, ','.join(map(str, shape)), ' transposed' if transposed else ''), oracle, [], extra=dict(bounds=dict(shape=shape)))
+
+
 # ------------------------------------------------------------------------------------------------- boolean / carry
 @guard
 def h_boolean(n):
@@ -644,6 +677,10 @@ def jobs(tier):
         js.append((h_bytemasked_nextcarry, (True, n + 1), 600))
     for m in range(M + 2):
         js.append((h_regularize_arrayslice, (m,), 600))
+    for shp in ([(3,), (2, 3), (2, 2, 2)] if tier == 'quick' else [(0,), (3,), (2, 3), (3, 1), (2, 2, 2), (2, 3, 2), (1, 2, 3), (2, 1, 2, 2)]):
+        js.append((h_slicearray_ravel, (shp,), 600))
+        if len(shp) >= 2:
+            js.append((h_slicearray_ravel, (shp, True), 600))
     from . import extra01, cpp01
     js += extra01.jobs(tier)
     js += cpp01.jobs(tier)          # C++ method level: getitem_at / getitem_range / getitem_at_nowrap of the list nodes
